@@ -596,7 +596,7 @@ def write_samples(
 
 def load_samples(path: Path) -> NDArray:
     """Read the redshift estimate jackknife samples from an ASCII text file."""
-    return np.loadtxt(path).T[2:]  # remove binning columns
+    return np.loadtxt(path, ndmin=2).T[2:]  # remove binning columns
 
 
 def write_covariance(path: Path, description: str, *, covariance: NDArray) -> None:
